@@ -66,6 +66,11 @@ class Collector:
         self.collapsed = 0
         self.exceptions = 0
         self.max_lines = 0
+        self.sampled_calls = 0
+        self.sampled_tuples = 0
+        self.sampled_satisfying = 0
+        self.entail_sampled = 0
+        self.max_arity = 0
 
     def record(self, name, box, params, status, out, fails, facts):
         self.evals += 1
@@ -80,6 +85,14 @@ class Collector:
             self.hull_decided += 1
         if facts.get("entail_checked"):
             self.entail_checked += 1
+        if facts.get("sampled"):
+            self.sampled_calls += 1
+            self.sampled_tuples += facts["sampled"]
+            self.sampled_satisfying += facts.get("sampled_satisfying", 0)
+        if facts.get("entail_sampled"):
+            self.entail_sampled += 1
+        if len(box) > self.max_arity:
+            self.max_arity = len(box)
         if facts.get("point_in"):
             self.points_in += 1
         elif status != 0 and callcheck.is_point(out):
@@ -107,6 +120,9 @@ class Collector:
             "fails": self.fails, "samples": self.samples, "hull_decided": self.hull_decided,
             "entail_checked": self.entail_checked, "points_in": self.points_in, "collapsed": self.collapsed,
             "exceptions": self.exceptions, "max_lines": self.max_lines, "mode": MODE,
+            "sampled_calls": self.sampled_calls, "sampled_tuples": self.sampled_tuples,
+            "sampled_satisfying": self.sampled_satisfying, "entail_sampled": self.entail_sampled,
+            "max_arity": self.max_arity,
         }
 
 
@@ -258,7 +274,7 @@ def run_calls(task):
                 box, params = gen.gen_call(rnd, name, opts)
                 if task.get("points") and rnd.random() < task["points"]:
                     box = [[v, v] for v in (rnd.randint(a, b) for a, b in box)]
-                judge_call(col, name, box, params, lb)
+                judge_call(col, name, box, params, lb, hull_limit=task.get("hull_limit", callcheck.HULL_LIMIT))
                 if (col.evals & 255) == 0 and time.time() > deadline:
                     truncated = True
                     break
